@@ -24,9 +24,10 @@ VARIABLES l,          \* next trace line
           open,       \* [id, armed]: observed open transaction
           txn,        \* spec history: [req, snap, dev] of the last applied transaction
           dry,        \* spec history: last dry-run prediction
+          flt,        \* spec history: the last failed TransactionSet [req, I, d, ever] (C07 retry)
           bad,        \* failed clauses: <<property, clause, line>>
           nt          \* non-trivial exercise counters per property
-tvars == <<l, intended, mirror, device, ever, open, txn, dry, bad, nt>>
+tvars == <<l, intended, mirror, device, ever, open, txn, dry, flt, bad, nt>>
 
 SeqRange(s) == {s[i] : i \in 1..Len(s)}
 Pairs(s) == {<<q[1], q[2]>> : q \in SeqRange(s)}
@@ -38,6 +39,7 @@ ModOf(m) == [o |-> m.o, p |-> m.p, del |-> SeqRange(m.del), upd |-> Pairs(m.upd)
 
 NoTxn == [valid |-> FALSE]
 NoDry == [valid |-> FALSE]
+NoFlt == [valid |-> FALSE]
 Props == {"C01", "C02", "C03", "C05", "C06", "C07", "C08", "C09", "M"}
 
 NoOpen == [id |-> "-", armed |-> FALSE, short |-> FALSE]
@@ -45,7 +47,7 @@ OpenProj == [id |-> open.id, armed |-> open.armed]
 \* the open transaction after an event: what is observed, plus the timeout class of the Set that opened it
 NextOpen(o, short) == [id |-> o.open.id, armed |-> o.open.armed, short |-> (o.open.id # "-" /\ short)]
 Init == /\ l = 1 /\ intended = {} /\ mirror = <<>> /\ device = <<>> /\ ever = {}
-        /\ open = NoOpen /\ txn = NoTxn /\ dry = NoDry
+        /\ open = NoOpen /\ txn = NoTxn /\ dry = NoDry /\ flt = NoFlt
         /\ bad = {} /\ nt = [p \in Props |-> 0]
 
 \* names of the clauses that do not hold; cs is a set of <<property, clause, BOOLEAN>>
@@ -79,6 +81,10 @@ SetClauses(e, o) ==
      {<<"C06", "SetRefusedWhileOpen", e.ret = "locked">>,
       <<"C06", "RefusedSetNoEffect", NoEffect(e, o) /\ o.open = OpenProj>>}
   ELSE IF ~wf THEN {<<"M", "RequestWellFormed", FALSE>>}
+  ELSE IF e.failat > 0 THEN
+     \* a collaborator call of this step was made to fail: only the C07 obligations apply to it
+     {<<"C07", "Unlocked", e.ret = "error" => o.open.id = "-">>,
+      <<"C07", "NoPartialAnswer", e.ret \in {"ok", "error", "invalid"}>>}
   ELSE IF applied THEN
      {<<"C01", "Converged", AdmConverged(o.d, I2)>>,
       <<"C01", "NoStale", AdmNoStale(device, o.d, E2, I2, orph)>>,
@@ -90,6 +96,11 @@ SetClauses(e, o) ==
       <<"C09", "NoopChangesNothing", verbatim => (o.I = intended /\ o.d = device /\ o.m = mirror)>>,
       <<"C03", "DryPredicts", (dry.valid /\ dry.I = intended /\ dry.d = device /\ dry.m = mirror /\ dry.req = R)
                                   => (Len(e.sets) = 1 /\ Pairs(e.sets[1].upd) = dry.upd /\ SeqRange(e.sets[1].delraw) = dry.delraw)>>,
+      <<"C07", "RetryStore", (flt.valid /\ flt.req = R) => o.I = NewStore(flt.I, R)>>,
+      <<"C07", "RetryDevice", (flt.valid /\ flt.req = R) =>
+            LET J2 == NewStore(flt.I, R) IN AdmConverged(o.d, J2) /\ AdmOneCase(o.d, J2)
+                 /\ AdmNoStale(flt.d, o.d, flt.ever \cup LeavesOf(J2), J2, Orphaned(flt.I, R))
+                 /\ AdmUntouched(flt.d, o.d, flt.ever \cup LeavesOf(J2))>>,
       <<"M", "OneDeviceCall", Len(e.sets) = 1>>,
       <<"M", "DeviceModel", o.d = ApplyChange(device, sent)>>,
       <<"M", "CacheModel", FoldMods(intended, IntendedMods(e)) = o.I>>,
@@ -98,9 +109,11 @@ SetClauses(e, o) ==
      {<<"C03", "NoEffect", NoEffect(e, o)>>,
       <<"C06", "NotWedgedAfterNoApply", o.open.id = "-">>}
   ELSE IF e.ret = "error" THEN
-     {<<"C07", "AllOrNothing", e.devfail => (o.I = intended /\ o.m = mirror /\ o.d = device)>>,
+     {<<"C07", "RetrySucceeds", ~(flt.valid /\ flt.req = R /\ e.failat = 0 /\ ~e.devfail)>>,
+      <<"C07", "AllOrNothing", e.devfail => (o.I = intended /\ o.m = mirror /\ o.d = device)>>,
       <<"C07", "Unlocked", o.open.id = "-">>,
       <<"C06", "NotWedgedAfterError", o.open.id = "-">>}
+  ELSE IF flt.valid /\ flt.req = R THEN {<<"C07", "RetrySucceeds", FALSE>>}
   ELSE {<<"C06", "UnexpectedRefusal", FALSE>>}
 
 SetNT(e) ==
@@ -118,7 +131,7 @@ SetNT(e) ==
      \cup (IF applied /\ shadowedTouched THEN {"C02"} ELSE {})
      \cup (IF (e.ret = "invalid" \/ e.dry) /\ intended # {} THEN {"C03"} ELSE {})
      \cup (IF open.id # "-" \/ e.ret # "ok" \/ e.dry THEN {"C06"} ELSE {})
-     \cup (IF e.ret = "error" THEN {"C07"} ELSE {})
+     \cup (IF (e.failat > 0 \/ e.devfail) /\ (Len(e.sets) > 0 \/ Len(e.mods) > 0) THEN {"C07"} ELSE {})
      \cup (IF applied /\ caseChange THEN {"C08"} ELSE {})
      \cup (IF applied /\ verbatim /\ intended # {} THEN {"C09"} ELSE {})
 
@@ -128,11 +141,16 @@ TxSet(e) ==
       applied == e.ret = "ok" /\ ~e.dry /\ open.id = "-"
   IN /\ bad' = bad \cup Failed(SetClauses(e, o), l)
      /\ nt' = Bump(SetNT(e))
-     /\ intended' = o.I /\ mirror' = o.d /\ device' = o.d   \* env sync: mirror := device
+     /\ intended' = o.I /\ mirror' = (IF e.envsync THEN o.d ELSE o.m) /\ device' = o.d   \* env sync: mirror := device
      /\ open' = IF open.id = "-" THEN NextOpen(o, e.tmo < 5000) ELSE NextOpen(o, open.short)
-     /\ ever' = IF applied THEN ever \cup LeavesOf(NewStore(intended, R)) \cup LeavesOf(o.I) ELSE ever
+     /\ ever' = IF applied THEN EverAfter(ever, intended, R, NewStore(intended, R), o.d) \cup LeavesOf(o.I)
+               ELSE ever \cup LeavesOf(o.I)
      /\ txn' = IF applied THEN [valid |-> TRUE, id |-> e.id, req |-> R, snap |-> SnapOf(intended, R), dev |-> device, I |-> intended]
                ELSE txn
+     /\ flt' = IF e.failat > 0 \/ e.devfail
+               THEN (IF flt.valid /\ flt.req = R THEN flt
+                     ELSE [valid |-> TRUE, req |-> R, I |-> intended, d |-> device, ever |-> ever])
+               ELSE IF applied \/ ~(flt.valid /\ flt.req = R) THEN NoFlt ELSE flt
      /\ dry' = IF e.ret = "ok" /\ e.dry /\ open.id = "-"
                THEN [valid |-> TRUE, I |-> intended, d |-> device, m |-> mirror, req |-> R,
                      upd |-> Pairs(e.resp.upd), delraw |-> SeqRange(e.resp.delraw)]
@@ -159,9 +177,9 @@ Confirm(e) ==
         ELSE {<<"C06", "WrongIdFails", e.ret = "error">>,
               <<"C06", "WrongIdNoEffect", Unchanged(e, o) /\ o.open = OpenProj>>}, l)
   /\ nt' = Bump(IF ~Matches(e) /\ open.id # "-" THEN {"C06"} ELSE {})
-  /\ intended' = o.I /\ mirror' = o.d /\ device' = o.d /\ open' = NextOpen(o, open.short)
+  /\ intended' = o.I /\ mirror' = (IF e.envsync THEN o.d ELSE o.m) /\ device' = o.d /\ open' = NextOpen(o, open.short)
   /\ txn' = IF o.open.id = "-" THEN NoTxn ELSE txn
-  /\ UNCHANGED <<ever, dry>>
+  /\ UNCHANGED <<ever, dry, flt>>
 
 Cancel(e) ==
   LET o == Obs(e) IN
@@ -172,10 +190,10 @@ Cancel(e) ==
               <<"C06", "WrongIdNoEffect", Unchanged(e, o) /\ o.open = OpenProj>>}, l)
   /\ nt' = Bump((IF ~Matches(e) /\ open.id # "-" THEN {"C06"} ELSE {})
                 \cup (IF Matches(e) /\ txn.valid /\ txn.I # intended /\ txn.dev # device THEN {"C05"} ELSE {}))
-  /\ intended' = o.I /\ mirror' = o.d /\ device' = o.d /\ open' = NextOpen(o, open.short)
+  /\ intended' = o.I /\ mirror' = (IF e.envsync THEN o.d ELSE o.m) /\ device' = o.d /\ open' = NextOpen(o, open.short)
   /\ txn' = IF o.open.id = "-" THEN NoTxn ELSE txn
   /\ ever' = ever \cup LeavesOf(o.I)
-  /\ UNCHANGED dry
+  /\ UNCHANGED <<dry, flt>>
 
 \* time passes: more than the short transaction timeout, less than the long one
 Wait(e) ==
@@ -187,22 +205,22 @@ Wait(e) ==
         ELSE {<<"C06", "NeverWedged", o.open.id = "-">>}, l)
   /\ nt' = Bump((IF open.id # "-" /\ open.armed /\ open.short /\ txn.valid /\ txn.I # intended /\ txn.dev # device THEN {"C05"} ELSE {})
                 \cup (IF open.id # "-" THEN {"C06"} ELSE {}))
-  /\ intended' = o.I /\ mirror' = o.d /\ device' = o.d /\ open' = NextOpen(o, open.short)
+  /\ intended' = o.I /\ mirror' = (IF e.envsync THEN o.d ELSE o.m) /\ device' = o.d /\ open' = NextOpen(o, open.short)
   /\ txn' = IF o.open.id = "-" THEN NoTxn ELSE txn
   /\ ever' = ever \cup LeavesOf(o.I)
-  /\ UNCHANGED dry
+  /\ UNCHANGED <<dry, flt>>
 
 Restart(e) ==
   LET o == Obs(e) IN
   /\ bad' = bad \cup Failed({<<"C07", "RestartKeepsStores", o.I = intended /\ o.d = device /\ o.m = mirror>>}, l)
   /\ intended' = o.I /\ mirror' = o.m /\ device' = o.d /\ open' = NextOpen(o, FALSE)
   /\ txn' = NoTxn /\ dry' = NoDry
-  /\ UNCHANGED <<ever, nt>>
+  /\ UNCHANGED <<ever, nt, flt>>
 
 Reset(e) ==
   LET o == Obs(e) IN
   /\ intended' = o.I /\ mirror' = o.m /\ device' = o.d /\ open' = NextOpen(o, FALSE)
-  /\ ever' = {} /\ txn' = NoTxn /\ dry' = NoDry
+  /\ ever' = {} /\ txn' = NoTxn /\ dry' = NoDry /\ flt' = NoFlt
   /\ bad' = bad \cup Failed({<<"M", "InitClean", o.I = {} /\ o.m = o.d /\ o.open.id = "-">>}, l)
   /\ UNCHANGED nt
 
@@ -222,7 +240,7 @@ Finish ==
   /\ JsonSerialize(OutFile, [consumed |-> l - 1, total |-> Len(Trace),
                              bad |-> SetToSeq(bad), nt |-> nt])
   /\ l' = l + 1
-  /\ UNCHANGED <<intended, mirror, device, ever, open, txn, dry, bad, nt>>
+  /\ UNCHANGED <<intended, mirror, device, ever, open, txn, dry, flt, bad, nt>>
 
 Next == Step \/ Finish
 Spec == Init /\ [][Next]_tvars
